@@ -114,13 +114,14 @@ Qed.
 
 (* generalised over a reference state s0 with the same registry as the running state *)
 Lemma C15_reduce_equiv_gen : forall env sk fname inc (cov : stmt -> bool) s0 stmts s im ic,
+  pure_imports env ->
   (forall st, cov st = covered s0 sk st \/ cov st = covered_env env s0 sk st) ->
   forallb (fun st => negb (is_include st)) stmts = true ->
   t_reg s = t_reg s0 ->
   apply_stmts env sk fname inc stmts s im ic =
   apply_stmts env sk fname inc (filter (fun st => negb (cov st)) stmts) s im ic.
 Proof.
-  intros env sk fname inc cov s0 stmts. induction stmts as [|st rest IH]; intros s im ic Hcov Hn Hreg.
+  intros env sk fname inc cov s0 stmts. induction stmts as [|st rest IH]; intros s im ic Hpure Hcov Hn Hreg.
   - reflexivity.
   - cbn [forallb] in Hn. apply andb_true_iff in Hn. destruct Hn as [Hst Hrest].
     assert (Hb : forall sc sel arg v l s1, bind s sc sel arg v l = SOk s1 -> t_reg s1 = t_reg s0).
@@ -151,11 +152,11 @@ Proof.
     + (* SImport *)
       destruct (Hcov (SImport m isf al line)) as [E|E]; rewrite E; cbn [covered covered_env negb].
       * cbn [apply_stmts].
-        destruct (str_in m (e_modules env)); [apply IH; assumption|].
+        destruct (str_in m (e_modules env)); [rewrite (register_mod_pure env m s Hpure); apply IH; assumption|].
         destruct (sk_truthy sk); [apply IH; assumption|reflexivity].
       * cbn [apply_stmts].
         destruct (str_in m (e_modules env)) eqn:Em; cbn [negb andb].
-        -- cbn [apply_stmts]. rewrite Em. apply IH; assumption.
+        -- cbn [apply_stmts]. rewrite Em, (register_mod_pure env m s Hpure). apply IH; assumption.
         -- destruct (sk_truthy sk) eqn:Et; cbn [negb].
            ++ apply IH; assumption.
            ++ cbn [apply_stmts]. rewrite Em, Et. reflexivity.
@@ -164,21 +165,23 @@ Qed.
 
 (* deleting the covered statements first and then applying with the SAME skip setting gives the same result *)
 Theorem C15_reduce_equiv : forall env sk fname inc stmts s im ic,
+  pure_imports env ->
   forallb (fun st => negb (is_include st)) stmts = true ->
   apply_stmts env sk fname inc stmts s im ic =
   apply_stmts env sk fname inc (filter (fun st => negb (covered s sk st)) stmts) s im ic.
 Proof.
-  intros env sk fname inc stmts s im ic Hn.
+  intros env sk fname inc stmts s im ic Hpure Hn.
   apply (C15_reduce_equiv_gen env sk fname inc (covered s sk) s); auto.
 Qed.
 
 (* the same with the un-importable imports deleted as well *)
 Theorem C15_reduce_equiv_imports : forall env sk fname inc stmts s im ic,
+  pure_imports env ->
   forallb (fun st => negb (is_include st)) stmts = true ->
   apply_stmts env sk fname inc stmts s im ic =
   apply_stmts env sk fname inc (filter (fun st => negb (covered_env env s sk st)) stmts) s im ic.
 Proof.
-  intros env sk fname inc stmts s im ic Hn.
+  intros env sk fname inc stmts s im ic Hpure Hn.
   apply (C15_reduce_equiv_gen env sk fname inc (covered_env env s sk) s); auto.
 Qed.
 
@@ -203,12 +206,13 @@ Lemma targets_known_reg : forall env s s' st, t_reg s' = t_reg s -> targets_know
 Proof. intros env s s' st H. destruct st; cbn [targets_known]; rewrite ?H; reflexivity. Qed.
 
 Lemma C15_known_targets_skip_irrelevant_gen : forall env sk sk' fname inc s0 stmts s im ic,
+  pure_imports env ->
   forallb (fun st => negb (is_include st)) stmts = true ->
   forallb (targets_known env s0) stmts = true ->
   t_reg s = t_reg s0 ->
   apply_stmts env sk fname inc stmts s im ic = apply_stmts env sk' fname inc stmts s im ic.
 Proof.
-  intros env sk sk' fname inc s0 stmts. induction stmts as [|st rest IH]; intros s im ic Hn Hk Hreg.
+  intros env sk sk' fname inc s0 stmts. induction stmts as [|st rest IH]; intros s im ic Hpure Hn Hk Hreg.
   - reflexivity.
   - cbn [forallb] in Hn, Hk. apply andb_true_iff in Hn. destruct Hn as [Hst Hrest].
     apply andb_true_iff in Hk. destruct Hk as [Hkst Hkrest].
@@ -224,30 +228,32 @@ Proof.
         apply IH; try assumption. eapply Hb; exact Hbind.
     + rewrite (known_no_skip s sel sk Hkst), (known_no_skip s sel sk' Hkst).
       destruct (sm_get_match (to_key sel) (t_reg s)) as [| |k [c|]]; try reflexivity. apply IH; assumption.
-    + rewrite Hkst. apply IH; assumption.
+    + rewrite Hkst, (register_mod_pure env m s Hpure). apply IH; assumption.
     + cbn in Hst. discriminate.
 Qed.
 
 Theorem C15_known_targets_skip_irrelevant : forall env sk fname inc stmts s im ic,
+  pure_imports env ->
   forallb (fun st => negb (is_include st)) stmts = true ->
   forallb (targets_known env s) stmts = true ->
   apply_stmts env sk fname inc stmts s im ic = apply_stmts env SkFalse fname inc stmts s im ic.
 Proof.
-  intros env sk fname inc stmts s im ic Hn Hk.
+  intros env sk fname inc stmts s im ic Hpure Hn Hk.
   apply (C15_known_targets_skip_irrelevant_gen env sk SkFalse fname inc s); auto.
 Qed.
 
 (* both halves together: the original list under [sk] = the reduced list with skipping switched off, provided the
    statements that remain target known names only *)
 Corollary C15_reduce_equiv_skfalse : forall env sk fname inc stmts s im ic,
+  pure_imports env ->
   forallb (fun st => negb (is_include st)) stmts = true ->
   forallb (targets_known env s) (filter (fun st => negb (covered_env env s sk st)) stmts) = true ->
   apply_stmts env sk fname inc stmts s im ic =
   apply_stmts env SkFalse fname inc (filter (fun st => negb (covered_env env s sk st)) stmts) s im ic.
 Proof.
-  intros env sk fname inc stmts s im ic Hn Hk.
-  rewrite (C15_reduce_equiv_imports env sk fname inc stmts s im ic Hn).
-  apply C15_known_targets_skip_irrelevant; [|exact Hk].
+  intros env sk fname inc stmts s im ic Hpure Hn Hk.
+  rewrite (C15_reduce_equiv_imports env sk fname inc stmts s im ic Hpure Hn).
+  apply C15_known_targets_skip_irrelevant; [exact Hpure| |exact Hk].
   clear Hk. induction stmts as [|st rest IH]; [reflexivity|].
   cbn [forallb] in Hn. apply andb_true_iff in Hn. destruct Hn as [Hst Hrest].
   cbn [filter]. destruct (negb (covered_env env s sk st)); [cbn [forallb]; rewrite Hst|]; auto.
@@ -435,7 +441,8 @@ Qed.
 (* an absolute name ignores the location prefixes: only "" is tried (and path_join "" name = name) *)
 Theorem C14_absolute_bypasses : forall env name, is_abs name = true ->
   resolve_file env name =
-  resolve_file {| e_files := e_files env; e_readers := e_readers env; e_prefixes := [""]; e_modules := e_modules env |} name.
+  resolve_file {| e_files := e_files env; e_readers := e_readers env; e_prefixes := [""]; e_modules := e_modules env;
+                  e_mod_regs := e_mod_regs env |} name.
 Proof. intros env name H. rewrite !resolve_file_eq. rewrite H. reflexivity. Qed.
 
 Theorem C14_absolute_full_is_name : forall env name full g, is_abs name = true ->
@@ -642,6 +649,21 @@ Proof.
   repeat split; congruence.
 Qed.
 
+Lemma register_mod_sim : forall env m s s', sim s s' ->
+  match register_mod env m s, register_mod env m s' with
+  | SOk a, SOk b => sim a b
+  | SErr e, SErr e' => e = e'
+  | _, _ => False
+  end.
+Proof.
+  intros env m s s' [H1 [H2 [H3 H4]]].
+  pose proof (register_mod_reg_lock env m s s' H1 H4) as A.
+  pose proof (register_mod_reg_lock env m s' s (eq_sym H1) (eq_sym H4)) as B.
+  destruct (register_mod env m s) as [a|e], (register_mod env m s') as [b|e']; try contradiction; [|exact A].
+  destruct A as [A1 [A2 [A3 [A4 _]]]]. destruct B as [_ [_ [B3 [B4 _]]]].
+  unfold sim. repeat split; congruence.
+Qed.
+
 Lemma apply_stmts_sim : forall env sk fname fname' inc inc' stmts s s' im ic im' ic',
   forallb (fun st => negb (is_include st)) stmts = true -> sim s s' ->
   sim (fst (apply_stmts env sk fname inc stmts s im ic)) (fst (apply_stmts env sk fname' inc' stmts s' im' ic')) /\
@@ -680,9 +702,14 @@ Proof.
       destruct (sm_get_match (to_key sel) (t_reg s)) as [| |k [c|]];
         try (cbn [fst snd with_loc res_sim err_sim]; split; [exact Hs|reflexivity]).
       apply IH; assumption.
-    + destruct (str_in m (e_modules env)); [apply IH; assumption|].
-      destruct (sk_truthy sk); [apply IH; assumption|].
-      cbn [fst snd with_loc res_sim err_sim]. split; [exact Hs|reflexivity].
+    + destruct (str_in m (e_modules env)).
+      * pose proof (register_mod_sim env m s s' Hs) as B.
+        destruct (register_mod env m s) as [a|e], (register_mod env m s') as [b|e']; try contradiction.
+        -- apply IH; assumption.
+        -- subst e'. rewrite !with_loc_SErr. cbn [fst snd res_sim]. split; [exact Hs|].
+           apply err_sim_with_loc. apply err_sim_refl.
+      * destruct (sk_truthy sk); [apply IH; assumption|].
+        cbn [fst snd with_loc res_sim err_sim]. split; [exact Hs|reflexivity].
     + cbn in Hst. discriminate.
 Qed.
 
@@ -892,7 +919,7 @@ Module C14Example.
        f_oracle := [("2", Some (OZ 2))] |}.
   Definition ex_env : fenv :=
     {| e_files := [((0, "b.gin"), ex_inc); ((0, "main.gin"), ex_main)];
-       e_readers := [0]; e_prefixes := [""]; e_modules := [] |}.
+       e_readers := [0]; e_prefixes := [""]; e_modules := []; e_mod_regs := [] |}.
   Definition ex_s : tstate :=
     init_tstate [ {| cs_sel := "f"; cs_args := ["x"; "y"]; cs_varkw := false; cs_allow := []; cs_deny := [] |} ] [].
   Definition gs1 := [[SBind "" "f" "x" (OZ 1) 1]].
